@@ -19,7 +19,12 @@ import (
 	"golang.org/x/tools/go/ssa/ssautil"
 )
 
-const repoDir = "/repo"
+// repoDir is the tree under analysis. Registered commands always use /repo; VERIF_REPO redirects it for development
+// runs against a scratch worktree (seeded changes), in which case evidence and replay files go to VERIF_OUT.
+var repoDir = "/repo"
+
+// outDir is where evidence/ and replay/ are written (verifDir unless VERIF_REPO is set).
+var outDir = ""
 const modPath = "github.com/drand/drand/v2"
 
 var verifDir = "/verif"
@@ -178,6 +183,15 @@ func main() {
 		fmt.Fprintln(os.Stderr, "usage: symgo run|replay ...")
 		os.Exit(2)
 	}
+	if r := os.Getenv("VERIF_REPO"); r != "" && r != repoDir {
+		repoDir = r
+		outDir = os.Getenv("VERIF_OUT")
+		if outDir == "" {
+			outDir = filepath.Join(os.TempDir(), "verif-out"+strings.ReplaceAll(r, "/", "_"))
+		}
+		os.MkdirAll(outDir, 0o755)
+		fmt.Fprintf(os.Stderr, "symgo: development run against %s, output under %s\n", repoDir, outDir)
+	}
 	switch os.Args[1] {
 	case "run":
 		os.Exit(cmdRun(os.Args[2:]))
@@ -200,6 +214,9 @@ func cmdRun(args []string) int {
 	vdir := fs.String("verif", "/verif", "verif dir")
 	fs.Parse(args)
 	verifDir = *vdir
+	if outDir == "" {
+		outDir = verifDir
+	}
 	t0 := time.Now()
 	seed := int64(0)
 	if s := os.Getenv("VERIF_SEED"); s != "" {
